@@ -156,6 +156,23 @@ func (r *replayer) build() error {
 			repl[filepath.Join(repoDir, dir, "zz_verif_"+filepath.Base(f))] = filepath.Join(r.propDir, f)
 		}
 	}
+	// the package's own tests (TestMain, init functions that patch the code under
+	// test) must not run inside the replay binary: blank them out
+	if tests, _ := filepath.Glob(filepath.Join(pkgDir, "*_test.go")); len(tests) > 0 {
+		for k, tf := range tests {
+			src, _ := os.ReadFile(tf)
+			clause := "package " + pkgName
+			for _, ln := range strings.Split(string(src), "\n") {
+				if strings.HasPrefix(ln, "package ") {
+					clause = strings.TrimSpace(ln)
+					break
+				}
+			}
+			stub := filepath.Join(scratch, fmt.Sprintf("blank_%d_test.go", k))
+			os.WriteFile(stub, []byte(clause+"\n"), 0o644)
+			repl[tf] = stub
+		}
+	}
 	ov, _ := json.Marshal(map[string]interface{}{"Replace": repl})
 	ovFile := filepath.Join(scratch, "overlay.json")
 	os.WriteFile(ovFile, ov, 0o644)
@@ -334,6 +351,12 @@ func cmdCheck(args []string) int {
 			}
 			cfg.SchedChoice = tc.SchedChoice
 			cfg.StopAfterViolation = 45 * time.Second
+			cfg.NoStopLabels = map[string]bool{}
+			for _, f := range findings {
+				if f.Property == prop && f.Status == "open" && (f.Entry == "" || f.Entry == e.Name) {
+					cfg.NoStopLabels[f.Label] = true
+				}
+			}
 			ex := &interp.Explorer{P: p, Cfg: cfg}
 			rep := ex.Explore(fn)
 			all = append(all, entryOut{e.Name, rep, tc})
